@@ -646,6 +646,7 @@ func insertSeparatorsAt(integer string, sep rune, positions []int, fromRight boo
 
 	s := integer
 	chunks := make([]string, 0, len(positions)+1)
+	done := 0
 
 	for i := range positions {
 
@@ -656,6 +657,17 @@ func insertSeparatorsAt(integer string, sep rune, positions []int, fromRight boo
 				// The number has no digit to the
 				// left of this position.
 				continue
+			}
+		} else {
+			// Positions in the fractional part count
+			// from the decimal separator, s has lost
+			// the digits of the previous chunks.
+			n -= done
+			done = positions[i]
+			if n >= utf8.RuneCountInString(s) {
+				// The number has no digit to the
+				// right of this position.
+				break
 			}
 		}
 
